@@ -146,7 +146,7 @@ func newVoteEnv(t testing.TB, alpha []int, fund int64) *voteEnv {
 		return e.SignTx(t, tx, 1_0000_0000, e.Validator)
 	}
 	var txs []*transaction.Transaction
-	txs = append(txs, gasInv(ve.payer.ScriptHash(), 200000_0000_0000, nil))
+	txs = append(txs, gasInv(ve.payer.ScriptHash(), 5000000_0000_0000, nil))
 	for i := 0; i < voteNCands; i++ {
 		txs = append(txs, gasInv(ve.signers[voteNKeys+i].ScriptHash(), voteCandGAS, nil))
 	}
@@ -500,10 +500,31 @@ type voteMon struct {
 	// pending ops of the current block (state observables come with the last)
 	changed bool
 	alphaChangedSinceOpen map[string]bool
+	// value of config("InnerRingCandidateFee") as set by the fired decisions
+	fee *big.Int
+	// distinct non-trivial cases (see Stats.Rule), shared by all histories of a run
+	distinct map[string]bool
+}
+
+// voteLEInt decodes a NeoVM integer (little-endian two's complement, empty = 0).
+func voteLEInt(b []byte) *big.Int {
+	if len(b) == 0 {
+		return big.NewInt(0)
+	}
+	be := make([]byte, len(b))
+	for i := range b {
+		be[len(b)-1-i] = b[i]
+	}
+	z := new(big.Int).SetBytes(be)
+	if b[len(b)-1]&0x80 != 0 {
+		z.Sub(z, new(big.Int).Lsh(big.NewInt(1), uint(8*len(b))))
+	}
+	return z
 }
 
 func newVoteMon(ve *voteEnv, st *Stats) *voteMon {
-	m := &voteMon{ve: ve, st: st, tally: map[string]*voteTally{}, cands: map[string]bool{}, alphaChangedSinceOpen: map[string]bool{}}
+	m := &voteMon{ve: ve, st: st, tally: map[string]*voteTally{}, cands: map[string]bool{}, alphaChangedSinceOpen: map[string]bool{},
+		fee: big.NewInt(voteFee), distinct: map[string]bool{}}
 	for _, k := range ve.alpha0 {
 		m.alpha = append(m.alpha, ve.pubs[k])
 	}
@@ -544,7 +565,7 @@ func (m *voteMon) step(op voteOp, o voteObs, gasSelf *big.Int) (fired bool) {
 	if op.Kind == "candAdd" {
 		if o.halt {
 			m.cands[string(ve.keyArg(op.Cand))] = true
-			gasSelf.Add(gasSelf, big.NewInt(voteFee))
+			gasSelf.Add(gasSelf, m.fee)
 			signed := false
 			for _, s := range op.Signers {
 				signed = signed || s == op.Cand
@@ -683,6 +704,22 @@ func (m *voteMon) step(op voteOp, o voteObs, gasSelf *big.Int) (fired bool) {
 		tag += "repeat"
 	}
 	m.st.OutcomeHistogram[tag]++
+	{
+		gap := "open"
+		if had {
+			switch d := h - saved.last; {
+			case d > 20:
+				gap = "expired"
+			case d == 20:
+				gap = "gap20"
+			case d == 0:
+				gap = "same-height"
+			default:
+				gap = "gap<20"
+			}
+		}
+		m.distinct[fmt.Sprintf("n=%d|%s|tally=%d|%s", len(m.alpha), tag, len(t.voters), gap)] = true
+	}
 	if !o.halt {
 		if !(expectFire && actionFaults) {
 			m.violate(fmt.Sprintf("%s by Alphabet key faulted (%s)", op.Kind, o.fault))
@@ -748,6 +785,10 @@ func (m *voteMon) step(op voteOp, o voteObs, gasSelf *big.Int) (fired bool) {
 		switch op.Kind {
 		case "cheque":
 			gasSelf.Sub(gasSelf, big.NewInt(op.Amount))
+		case "setConfig":
+			if string(op.Key) == "InnerRingCandidateFee" {
+				m.fee = voteLEInt(op.Val)
+			}
 		case "alphabetUpdate":
 			m.alpha = nil
 			for _, k := range op.Keys {
@@ -761,6 +802,36 @@ func (m *voteMon) step(op voteOp, o voteObs, gasSelf *big.Int) (fired bool) {
 		}
 	}
 	return obsFire
+}
+
+// voteOpsCompact prints a history literally, one short string per op:
+// kind(args) signers=[..] +skip / same-block.
+func voteOpsCompact(ops []voteOp) []string {
+	var out []string
+	for _, op := range ops {
+		var a string
+		switch op.Kind {
+		case "cheque":
+			a = fmt.Sprintf("id=%q user=%x amount=%d lock=%x", op.ID, op.User, op.Amount, op.Lock)
+		case "alphabetUpdate":
+			a = fmt.Sprintf("id=%q keys=%v", op.ID, op.Keys)
+		case "setConfig":
+			a = fmt.Sprintf("id=%q key=%q val=%q", op.ID, op.Key, op.Val)
+		case "candRemove", "candAdd":
+			a = fmt.Sprintf("cand=%d", op.Cand)
+		case "fund":
+			a = fmt.Sprintf("amount=%d", op.Amount)
+		}
+		x := fmt.Sprintf("%s(%s) signers=%v", op.Kind, a, op.Signers)
+		if op.Skip > 0 {
+			x += fmt.Sprintf(" after %d empty blocks", op.Skip)
+		}
+		if op.Same {
+			x += " same-block"
+		}
+		out = append(out, x)
+	}
+	return out
 }
 
 func haltStr(h bool) string {
@@ -810,9 +881,10 @@ func staticGroups(ops []voteOp) func(m *voteMon) []voteOp {
 	}
 }
 
-func runVoteHistory(t testing.TB, vc *voteCoq, st *Stats, alpha []int, fund int64, next func(m *voteMon) []voteOp) (string, *voteMon) {
+func runVoteHistory(t testing.TB, vc *voteCoq, st *Stats, distinct map[string]bool, alpha []int, fund int64, next func(m *voteMon) []voteOp) (string, *voteMon) {
 	ve := newVoteEnv(t, alpha, fund)
 	m := newVoteMon(ve, st)
+	m.distinct = distinct
 	gasSelf := big.NewInt(fund)
 	exp := voteExpect{cfg: map[string][]byte{"InnerRingCandidateFee": voteFeeBytes()}, gas: map[string]*big.Int{}}
 	for _, p := range ve.payees {
@@ -1027,6 +1099,70 @@ func voteExhaustive(n int, maxLen int) (alpha []int, fund int64, ops []voteOp) {
 	return
 }
 
+// voteExhaustiveGaps: for one n, all voter sequences of length L over
+// {member 0..n-1, stranger} combined with all patterns of the distance
+// between consecutive votes taken from {same block, next block, 20 blocks
+// (still adds up), 21 blocks (expired)}.  Each (sequence, pattern) has its own
+// decision id; the action kind rotates over cheque / setConfig /
+// alphabetUpdate (same key set, rotated).  One chain (one case).
+func voteExhaustiveGaps(n int, L int) (alpha []int, fund int64, ops []voteOp) {
+	for i := 0; i < n; i++ {
+		alpha = append(alpha, i)
+	}
+	P0 := append(bytes.Repeat([]byte{0xA1}, 19), 1)
+	nseq, npat := 1, 1
+	for i := 0; i < L; i++ {
+		nseq *= n + 1
+	}
+	for i := 0; i < L-1; i++ {
+		npat *= 4
+	}
+	fund = int64(nseq*npat) * 2
+	for s := 0; s < nseq; s++ {
+		for pt := 0; pt < npat; pt++ {
+			id := []byte(fmt.Sprintf("g%d-%d", s, pt))
+			kind := (s + pt) % 3
+			x, y := s, pt
+			for p := 0; p < L; p++ {
+				v := x % (n + 1)
+				x /= n + 1
+				sg := []int{v}
+				if v == n {
+					sg = []int{8}
+				}
+				var op voteOp
+				switch kind {
+				case 0:
+					op = voteOp{Kind: "cheque", ID: id, User: P0, Amount: 1, Lock: []byte{2}, Signers: sg}
+				case 1:
+					op = voteOp{Kind: "setConfig", ID: id, Key: []byte("k2"), Val: id, Signers: sg}
+				case 2:
+					rot := make([]int, n)
+					for i := range rot {
+						rot[i] = (i + s + pt) % n
+					}
+					op = voteOp{Kind: "alphabetUpdate", ID: id, Keys: rot, Signers: sg}
+				}
+				if p > 0 {
+					switch y % 4 {
+					case 0:
+						op.Same = true
+					case 1:
+					case 2:
+						op.Skip = 19
+					case 3:
+						op.Skip = 20
+					}
+					y /= 4
+				}
+				op.Box = p == L-1
+				ops = append(ops, op)
+			}
+		}
+	}
+	return
+}
+
 func voteRandom(r *rand.Rand, n int, length int) (alpha []int, fund int64, next func(m *voteMon) []voteOp) {
 	perm := r.Perm(voteNKeys - 1) // K8 stays a stranger in every history
 	alpha = append([]int{}, perm[:n]...)
@@ -1148,7 +1284,7 @@ func voteRandom(r *rand.Rand, n int, length int) (alpha []int, fund int64, next 
 func TestC17(t *testing.T) {
 	t0 := time.Now()
 	st := NewStats("C17")
-	st.Rule = "an evaluation is one invocation executed on the real contract and compared with the model; distinct_nontrivial counts distinct (alphabet size, op kind, outcome class, tally size, gap class) combinations among invocations by an Alphabet key"
+	st.Rule = "an evaluation is one invocation executed on the real contract and compared with the model; distinct_nontrivial counts the distinct tuples (length n of the stored Alphabet list, method, outcome class fire/vote/repeat/fault, size of the tally including this vote, gap class open/same-height/gap<20/gap20/expired since the last counted vote for that id) observed among well-formed invocations witnessed by a stored Alphabet key; rejected strangers, malformed arguments, candidate registration and funding are evaluations but not counted here"
 	thorough := Tier() == "thorough"
 
 	type caseFile struct {
@@ -1159,8 +1295,9 @@ func TestC17(t *testing.T) {
 	files := []*caseFile{newCF()}
 	cur := files[0]
 	totalFired, totalCarry := 0, 0
+	distinct := map[string]bool{}
 	add := func(alpha []int, fund int64, next func(m *voteMon) []voteOp) *voteMon {
-		c, m := runVoteHistory(t, cur.vc, st, alpha, fund, next)
+		c, m := runVoteHistory(t, cur.vc, st, distinct, alpha, fund, next)
 		cur.cases = append(cur.cases, c)
 		totalFired += m.fired
 		totalCarry += m.carry
@@ -1171,45 +1308,57 @@ func TestC17(t *testing.T) {
 	for _, h := range voteCorpus() {
 		m := add(h.alpha, h.fund, staticGroups(h.ops))
 		if len(st.Samples) < 3 {
-			st.Samples = append(st.Samples, map[string]any{"name": h.name, "alphabet": h.alpha, "ops": len(h.ops), "fired": m.fired})
+			st.Samples = append(st.Samples, map[string]any{"name": h.name, "alphabet": h.alpha, "fund": h.fund, "ops": voteOpsCompact(h.ops), "fired": m.fired})
 		}
 	}
 	// 2. exhaustive voter sequences
+	newFile := func() {
+		files = append(files, newCF())
+		cur = files[len(files)-1]
+	}
 	maxN, maxLen := 4, 4
 	for n := 1; n <= maxN; n++ {
 		if thorough {
-			files = append(files, newCF())
-			cur = files[len(files)-1]
+			newFile()
 		}
 		alpha, fund, ops := voteExhaustive(n, maxLen)
 		add(alpha, fund, staticGroups(ops))
 	}
+	st.Extra["exhaustive"] = fmt.Sprintf("all voter sequences of length %d over members+stranger for n=1..%d, one block per vote", maxLen, maxN)
 	if thorough {
-		files = append(files, newCF())
-		cur = files[len(files)-1]
-		alpha, fund, ops := voteExhaustive(5, 4)
-		add(alpha, fund, staticGroups(ops))
+		// deeper: longer sequences for small n, length 4 for n = 5, 6, length 3 for n = 7
+		for _, nl := range [][2]int{{1, 5}, {2, 5}, {3, 5}, {5, 4}, {6, 4}, {7, 3}} {
+			newFile()
+			alpha, fund, ops := voteExhaustive(nl[0], nl[1])
+			add(alpha, fund, staticGroups(ops))
+		}
+		// sequences x timing patterns (same block / next block / 20 / 21 blocks apart)
+		for _, nl := range [][2]int{{1, 3}, {2, 3}, {3, 3}, {4, 3}} {
+			newFile()
+			alpha, fund, ops := voteExhaustiveGaps(nl[0], nl[1])
+			add(alpha, fund, staticGroups(ops))
+		}
+		st.Extra["exhaustive_thorough"] = "additionally: length 5 for n=1..3, length 4 for n=5,6, length 3 for n=7; and for n=1..4 all sequences of length 3 x all 16 patterns of distances {same block, 1, 20, 21 blocks} between consecutive votes"
 	}
-	st.Extra["exhaustive"] = fmt.Sprintf("all voter sequences of length %d over members+stranger for n=1..%d (thorough: also n=5)", maxLen, maxN)
 	// 3. random histories, n = 1..7
 	nh, ln := 42, 30
 	if thorough {
-		nh, ln = 420, 40
+		nh, ln = 840, 40
 	}
 	r := Rng(17)
 	for i := 0; i < nh; i++ {
 		if thorough && i%105 == 0 {
-			files = append(files, newCF())
-			cur = files[len(files)-1]
+			newFile()
 		}
 		n := 1 + i%7
 		alpha, fund, next := voteRandom(r, n, ln)
 		add(alpha, fund, next)
 	}
+	st.Extra["random"] = fmt.Sprintf("%d random histories of %d invocations, n = 1..7 round robin, two competing ids per method family, Alphabet replacement, candidates, gaps of 10/19/20/21 blocks, up to 4 transactions per block", nh, ln)
 
 	st.Extra["fired_decisions"] = totalFired
 	st.Extra["fired_with_carried_over_or_repeated_votes_after_alphabet_change"] = totalCarry
-	st.DistinctNontrivial = len(st.OutcomeHistogram)
+	st.DistinctNontrivial = len(distinct)
 
 	for k, cf := range files {
 		name := "cases_C17.v"
